@@ -17,7 +17,10 @@ CHECKS: dict[str, dict] = {
              "any length yields a documented path starting at REGISTERED, refused request leaves the store unchanged. Tie: translator "
              "(every run) + exhaustive differential of the single-step space through status_record_transition and through "
              "set_invocation_status on Mem and SQLite under a virtual clock + request sequences; an oracle built from the documented "
-             "graph alone judges every real step, so a failing input is concrete.",
+             "graph alone judges every real step, so a failing input is concrete. Status index of the in-memory orchestrator (Model/IndexScan.lean, "
+             "Props/C01Scan.lean): however read-side scans interleave with the three steps of an accepted transition, the invocation ends up listed under "
+             "exactly its recorded status; a scan that repairs the index by the record loses it (witness); `code_scans_only_read` (translate/indexscan.py) "
+             "ties writers of the index and the order index-then-record to the source; real threads at line granularity (`scans_during_a_transition`).",
         note=TB + "States not reachable with an arbitrary owner are injected into the store (13 statuses are also driven by public calls).",
         technique="Lean 4 proof (decide over regenerated table + induction over request lists) + exhaustive differential correspondence",
         ref="§5 C01",
